@@ -187,6 +187,12 @@ class OperatorMapper:
         if operation is operator.le or operator_name == "le":
             return left <= right
         if operation is operator.ne or operator_name == "ne":
+            # in memory a missing value (None) differs from every value; a plain SQL inequality is unknown for NULL and
+            # would leave those rows out
+            if hasattr(left, "is_distinct_from"):
+                return left.is_distinct_from(right)
+            if hasattr(right, "is_distinct_from"):
+                return right.is_distinct_from(left)
             return left != right
 
         raise UnsupportedOperatorError(f"Unknown operator: {operation}")
